@@ -20,6 +20,7 @@ import struct
 from vlib.core import run_cmd, VERIF
 from vlib.build import BuildError
 from tools.gen import marsh as gen_marsh
+from tools.gen import marshcode as gen_marshcode
 from tools.gen import asm as gen_asm
 from tools.gen import bytecode as gen_bytecode
 from tools.gen import peg as gen_peg
@@ -32,6 +33,10 @@ THEOREMS = ["JanetModel.Props.C09." + t for t in (
     "read_total_inbounds", "unmarshal_nil",                                              # decoder stays inside the buffer
     "asm_operand_roundtrip", "asm_operand_rejects",                                      # assembler operand fields (asm . disasm)
     "env_slot_test_is_bit", "env_walk_visits_set_bits",                                  # closure env written from a live frame
+)]
+
+CODE_OBLIGATIONS = ["JanetModel.Marsh.CodeObligations." + t for t in (
+    "code_depths_match_model", "unmarshal_never_deeper", "def_field_order", "flag_bits",   # Code.lean vs the current marsh.c
 )]
 
 ENV = dict(os.environ, ASAN_OPTIONS="detect_leaks=0:abort_on_error=0", UBSAN_OPTIONS="print_stacktrace=1")
@@ -351,6 +356,49 @@ def compiled_cases(ctx, thorough):
     return out
 
 
+def function_depth(ctx, hxc, exe, guard, code_cases, lo=None, hi=None):
+    """a function nested d arrays deep, d around the recursion guard: whatever marshals must unmarshal (direct oracle);
+    model `marshalc` / `unmarshalc` must agree with the implementation on ok / err at every depth"""
+    lo = max(1, guard - 6) if lo is None else lo
+    hi = guard + 3 if hi is None else hi
+    out = {"rows": [], "violations": [], "broken": []}
+    rc, o, err = run_cmd([hxc, os.path.join(H, "codegraph.janet"), "deep", str(lo), str(hi)], timeout=900, env=ENV)
+    rows = [l.split() for l in o.decode(errors="replace").splitlines() if l.startswith("deep ")]
+    if rc != 0 or len(rows) != hi - lo + 1:
+        out["violations"].append(("function-depth-crash", {"kind": "fdeep", "lo": lo, "hi": hi, "rc": rc, "stderr": err.decode(errors="replace")[-2000:]},
+                                  "marshal / unmarshal of a deeply nested function crashed"))
+        return out
+    # description of the function alone (printed by the harness), wrapped in d arrays
+    base = None
+    for l in o.decode(errors="replace").splitlines():
+        if l.startswith("base "):
+            base = l[5:]
+    mlines = []
+    if base and exe:
+        def shift(t, k):
+            return re.sub(r"\br(\d+)\b", lambda m: "r%d" % (int(m.group(1)) + k), t)
+        root, _, tail = base.partition(" | ")
+        for d in range(lo, hi + 1):
+            arrays = "".join(" | A0 r%d" % (i + 1) for i in range(d))
+            mlines.append("marshalc r0" + arrays + " | " + shift(tail, d))
+    mo = ctx.model(mlines, exe=exe) if mlines else []
+    mo2 = ctx.model([("unmarshalc " + m) if m != "err" else "unmarshalc" for m in mo], exe=exe) if mo else []
+    for i, r in enumerate(rows):
+        d, mok, uok = int(r[1]), r[3] == "ok", r[5] == "ok"
+        row = {"depth": d, "marshal": r[3], "unmarshal": r[5]}
+        if mok and not uok:
+            out["violations"].append(("function-depth-roundtrip", {"kind": "fdeep", "lo": d, "hi": d, "depth": d,
+                                      "janet": "(defn nest [x k] (var v x) (repeat k (set v @[v])) v) (unmarshal (marshal (nest (fn named [] [1 2 3]) %d)))" % d},
+                                      "a function nested %d arrays deep is marshalled, but unmarshal rejects the bytes (depth accounting of marshal_one_def and unmarshal_one_def differ)" % d))
+        if mo:
+            row["model_marshal"] = "ok" if mo[i] != "err" else "err"
+            row["model_unmarshal"] = "ok" if mo2[i].startswith("ok") else "err"
+            if (mo[i] != "err") != mok or (mok and (mo2[i].startswith("ok")) != uok):
+                out["broken"].append("recursion depth boundary with a function: depth %d implementation marshal %s unmarshal %s, model marshal %s unmarshal %s"
+                                     % (d, r[3], r[5], row["model_marshal"], row["model_unmarshal"]))
+        out["rows"].append(row)
+    return out
+
 
 def run(ctx):
     quick = ctx.tier == "quick"
@@ -361,6 +409,7 @@ def run(ctx):
     try:
         ctx.build.boot()
         ctx.gen("Marsh.lean", gen_marsh.render(ctx.build.tree))
+        ctx.gen("MarshCode.lean", gen_marshcode.render(ctx.build.tree))
         lb = gen_marsh.extract(ctx.build.tree)[0]
         ctx.gen("Bytecode.lean", gen_bytecode.render(ctx.build.tree))
         ctx.gen("Asm.lean", gen_asm.render(ctx.build.tree))
@@ -372,6 +421,8 @@ def run(ctx):
         return ctx.finish("proof", {"evaluations": 0, "distinct_nontrivial": 0})
     # (B,C) kernel check + audit
     broken += ctx.obligations("JanetModel.Props.C09", THEOREMS)
+    code_broken = ctx.obligations("JanetModel.Marsh.CodeObligations", CODE_OBLIGATIONS)
+    broken += code_broken
     if not quick:
         ok, log = ctx.leanchecker("JanetModel.Props.C09")
         if not ok:
@@ -595,6 +646,106 @@ def run(ctx):
         if rc != 0 or len(dl) != hi - lo + 1:
             violations.append(("deep-crash", {"kind": "deep", "rc": rc, "stderr": err.decode(errors="replace")[-2000:]}, "marshal of deeply nested arrays crashed"))
         stats["depth_boundary"] = deep
+
+        # (D6) value graphs with code objects: functions, funcdefs (sharing through seen_defs), closure environments
+        # (sharing through seen_envs, detached and early-detach), model Marsh/Code.lean vs real marshal / unmarshal
+        cgstats = {"cases": 0, "skipped": 0, "oracle_fail": 0, "marshal_diffs": 0, "unmarshal_diffs": 0, "functions": 0, "funcdefs": 0,
+                   "environments": 0, "funcdef_refs": 0, "funcenv_refs": 0, "max_funcdefs": 0, "with_symbolmap": 0, "with_sourcemap": 0,
+                   "with_bitset": 0, "with_subdefs": 0, "registry_values": 0, "bytes": 0}
+        try:
+            hxc = ctx.build.harness("asan", "c09codedesc", [os.path.join(H, "codedesc.c")])
+        except BuildError as e:
+            hxc = None
+            broken.append("code-describing harness does not compile against the current tree: %s" % str(e)[-400:])
+            ctx.broken.append(broken[-1])
+        code_cases = []
+        if hxc:
+            cper = 60 if quick else 1500
+            if broken:
+                cper *= 4
+            cgseeds = [ctx.rng.below(2**31 - 1) + 1 for _ in range(nproc)]
+            def cgen(seed):
+                rc, out, err = run_cmd([hxc, os.path.join(H, "codegraph.janet"), "gen", str(seed), str(cper)], timeout=3000, env=ENV)
+                return seed, rc, out.decode(errors="replace").splitlines(), err.decode(errors="replace")[-3000:]
+            with cf.ThreadPoolExecutor(nproc) as ex:
+                cgres = list(ex.map(cgen, cgseeds))
+            for seed, rc, out, err in cgres:
+                for l in out:
+                    p = l.split(" ", 3)
+                    if len(p) == 4 and p[0].isdigit():
+                        code_cases.append((seed,) + tuple(p))
+                if rc != 0:
+                    violations.append(("codegraph-harness-crash", {"kind": "codegraph-crash", "gen_seed": seed, "per": cper, "rc": rc, "stderr": err, "last": out[-1:]},
+                                       "codegraph.janet gen %d crashed / raised (rc=%r): %s" % (seed, rc, err[-300:])))
+            cglines = []
+            for seed, idx, verdict, hexb, desc in code_cases:
+                if verdict.startswith("skip") or desc == "?":
+                    continue
+                cglines.append("marshalc " + desc)
+                cglines.append("unmarshalc " + hexb)
+            cmo = ctx.model(cglines, exe=exe) if exe and cglines else None
+            k = 0
+            cgdiffs = []
+            for seed, idx, verdict, hexb, desc in code_cases:
+                if verdict.startswith("skip"):
+                    cgstats["skipped"] += 1
+                    continue
+                cgstats["cases"] += 1
+                if verdict != "ok":
+                    cgstats["oracle_fail"] += 1
+                    violations.append(("codegraph-roundtrip:" + verdict.split(":")[1][:40], {"kind": "codegraph", "gen_seed": seed, "per": cper, "index": int(idx), "verdict": verdict,
+                                                                                             "marshalled_hex": hexb[:4000], "description": desc[:4000]},
+                                       "(unmarshal (marshal g)) of a graph with functions is not the same graph: %s (codegraph.janet gen %d, case %s)" % (verdict, seed, idx)))
+                if desc == "?":
+                    continue
+                secs = desc.split(" # ")
+                nd = secs[1].count("D ") and len(secs[1].split(" | ")) if len(secs) > 1 and secs[1].strip() else 0
+                ne = len(secs[2].split(" | ")) if len(secs) > 2 and secs[2].strip() else 0
+                cgstats["functions"] += len(re.findall(r"\| F \d", secs[0]))
+                cgstats["funcdefs"] += nd
+                cgstats["environments"] += ne
+                cgstats["max_funcdefs"] = max(cgstats["max_funcdefs"], nd)
+                cgstats["funcdef_refs"] += hexb.count("dc")      # rough: byte value of LB_FUNCDEF_REF
+                cgstats["funcenv_refs"] += hexb.count("db")
+                cgstats["registry_values"] += len(re.findall(r"\| G", secs[0]))
+                cgstats["bytes"] += len(hexb) // 2
+                if len(secs) > 1:
+                    cgstats["with_symbolmap"] += len(re.findall(r" S [1-9]", secs[1]))
+                    cgstats["with_sourcemap"] += len(re.findall(r" M [1-9]", secs[1]))
+                    cgstats["with_bitset"] += len(re.findall(r" X [1-9]", secs[1]))
+                    cgstats["with_subdefs"] += len(re.findall(r" D [1-9]\d* \d", secs[1]))
+                if cmo is not None:
+                    m, u = cmo[k], cmo[k + 1]
+                    k += 2
+                    if m != hexb:
+                        cgstats["marshal_diffs"] += 1
+                        cgdiffs.append({"what": "marshal bytes (code objects)", "gen_seed": seed, "index": int(idx), "description": desc[:3000], "impl": hexb[:3000], "model": m[:3000]})
+                    exp = "ok %d %s" % (len(hexb) // 2, desc)
+                    if u.strip() != exp.strip():
+                        cgstats["unmarshal_diffs"] += 1
+                        cgdiffs.append({"what": "unmarshal of the implementation's bytes (code objects)", "gen_seed": seed, "index": int(idx), "expected": exp[:3000], "model": u[:3000]})
+            if cgdiffs:
+                broken.append("correspondence model/impl on graphs with code objects: %d marshal / %d unmarshal differences, first %s" %
+                              (cgstats["marshal_diffs"], cgstats["unmarshal_diffs"], json.dumps(cgdiffs[0])[:900]))
+                ctx.broken.append(broken[-1])
+                gdiffs += cgdiffs[:3]
+            # corpus: minimised past failures, replayed on every run
+            cdir = os.path.join(VERIF, "corpus/C09")
+            for fn in sorted(os.listdir(cdir)) if os.path.isdir(cdir) else []:
+                sc = json.load(open(os.path.join(cdir, fn)))
+                if sc.get("kind") == "fdeep":
+                    r0 = function_depth(ctx, hxc, None, guard, [], lo=sc["lo"], hi=sc["hi"])
+                    violations += r0["violations"]
+                    stats.setdefault("corpus", []).append({"scenario": fn, "rows": len(r0["rows"]), "violations": len(r0["violations"])})
+            # recursion-depth boundary with a function at the bottom: marshal ok => unmarshal ok, and the model agrees on both
+            fd = function_depth(ctx, hxc, exe, guard, code_cases)
+            stats["function_depth_boundary"] = fd["rows"]
+            violations += fd["violations"]
+            for b in fd["broken"]:
+                broken.append(b)
+                ctx.broken.append(b)
+        stats["code_graphs"] = cgstats
+        ctx.say("code graphs: %r" % cgstats)
 
         # (E2) code objects and abstract types, asm/disasm: behavioural comparison
         rounds = 10 if quick else 120
@@ -913,6 +1064,13 @@ def replay(ctx, path):
         if rc != 0 or not o.startswith("ok "):
             ctx.violation(r.get("signature", "peg"), r, what="still fails: " + o[:300])
         return ctx.finish("proof", {"evaluations": 1, "distinct_nontrivial": 1, "rule": "replay", "samples": [o[:200]]})
+    if kind == "fdeep":
+        hxc = ctx.build.harness("asan", "c09codedesc", [os.path.join(H, "codedesc.c")])
+        fd = function_depth(ctx, hxc, None, 1024, [], lo=r["lo"], hi=r["hi"])
+        print("replayed:", fd["rows"])
+        for sig, rep, what in fd["violations"][:1]:
+            ctx.violation(sig, rep, what="still fails: " + what)
+        return ctx.finish("proof", {"evaluations": len(fd["rows"]), "distinct_nontrivial": len(fd["rows"]), "rule": "replay", "samples": [json.dumps(x) for x in fd["rows"][:3]]})
     if kind == "code":
         rc, out, err = run_cmd([janet, os.path.join(H, "code.janet"), str(r["code_seed"]), str(r["rounds"])], timeout=3000, env=ENV)
         for l in out.decode(errors="replace").splitlines():
